@@ -25,15 +25,21 @@ def suite_ok(wt):
     return (passed, not failed, r.stdout[-1500:])
 
 def confirm(wt, mdir, prop, name):
-    assert sh("git status --porcelain -- src cpp tests", cwd=wt).stdout.strip() == "", "worktree not clean"
+    assert sh("git status --porcelain -- src cpp/src cpp/include tests", cwd=wt).stdout.strip() == "", "worktree not clean"
     patch = os.path.join(mdir, "patch.diff")
     demos = [f for f in glob.glob(os.path.join(mdir, "*.rs"))]
     assert demos, "no demo .rs file"
     demo = demos[0]
     tname = f"seeded_demo_{prop.lower()}_{re.sub(r'[^a-z0-9]', '_', name.lower())}"
-    tpath = os.path.join(wt, "tests", tname + ".rs")
+    src = open(demo).read()
+    if "resolvo_cpp" in src:
+        # demonstration against the C++ binding crate
+        tpath = os.path.join(wt, "cpp", "tests", tname + ".rs")
+        feat = "-p resolvo_cpp --features verif-hooks"
+    else:
+        tpath = os.path.join(wt, "tests", tname + ".rs")
+        feat = "--features serde" if "serde" in src else ""
     res = {}
-    feat = "--features serde" if "serde" in open(demo).read() else ""
     try:
         r = sh(f"git apply {patch}", cwd=wt); assert r.returncode == 0, "patch does not apply: " + r.stderr
         passed, ok, tail = suite_ok(wt)
